@@ -112,19 +112,49 @@ def Conforms {σ} (a : AbsHandler σ) (h : Handler) : Prop :=
 
 /-! ### the matrix step: what the model expects of one message of the evolving role table -/
 
-/-- effect of an authorised admin.AddAccount / admin.RemoveAccount on the role table; every other
+/-- payload of admin.AddAccount / admin.RemoveAccount: the role, the address string as the message
+    spells it, and (environment value, computed by cosmos-sdk's bech32 code) the canonical string of
+    the account that spelling denotes — `none` if it is not a valid address -/
+structure Payload where
+  role : Role
+  addr : Addr
+  canon : Option Addr
+  deriving Repr, DecidableEq
+
+/-- `validateAdminAccount`: only the canonical spelling of a valid address is accepted -/
+def Payload.canonical (p : Payload) : Bool := p.canon == some p.addr
+
+/-- does the handler validate the spelling (regenerated fact `adminValidatesCanonical`) -/
+def validatesSpelling (name : String) : Bool :=
+  (Sif.Generated.Auth.adminValidatesCanonical.find? (fun e => e.1 == name)).map (·.2) == some true
+
+def isTableMsg (module name : String) : Bool := module == "admin" && (name == "AddAccount" || name == "RemoveAccount")
+
+/-- effect of an authorised, valid admin.AddAccount / admin.RemoveAccount on the role table; every other
     handler leaves the three role stores alone -/
-def applyAdminMsg (st : AuthState) (module name : String) (payload : Option (Role × Addr)) : AuthState :=
+def applyAdminMsg (st : AuthState) (module name : String) (payload : Option Payload) : AuthState :=
   match payload with
   | none => st
-  | some k =>
-    if module == "admin" && name == "AddAccount" then { st with admin := st.admin.add k }
-    else if module == "admin" && name == "RemoveAccount" then { st with admin := st.admin.remove k }
+  | some p =>
+    if module == "admin" && name == "AddAccount" then { st with admin := st.admin.add (p.role, p.addr) }
+    else if module == "admin" && name == "RemoveAccount" then { st with admin := st.admin.remove (p.role, p.addr) }
     else st
 
-/-- one message: accepted iff its guard holds for the signer (the payloads of the matrix are
-    otherwise valid) -/
-def stepMsg (st : AuthState) (h : Handler) (signer : Addr) (payload : Option (Role × Addr)) : AuthState × Outcome :=
-  if holds st h.store h.role signer then (applyAdminMsg st h.module h.name payload, .ok) else (st, .err)
+/-- the payload check behind the guard (`validates`: whether the code has it) -/
+def payloadOK (validates : Bool) (module name : String) (payload : Option Payload) : Bool :=
+  match payload with
+  | none => true
+  | some p => !(validates && isTableMsg module name) || p.canonical
+
+/-- one message: accepted iff its guard holds for the signer and, for the two table messages, the
+    account is named in its canonical spelling (the payloads of the matrix are otherwise valid) -/
+def stepMsgV (validates : Bool) (st : AuthState) (h : Handler) (signer : Addr) (payload : Option Payload) : AuthState × Outcome :=
+  if holds st h.store h.role signer && payloadOK validates h.module h.name payload then
+    (applyAdminMsg st h.module h.name payload, .ok)
+  else (st, .err)
+
+/-- with what the regenerated facts say about the code -/
+def stepMsg (st : AuthState) (h : Handler) (signer : Addr) (payload : Option Payload) : AuthState × Outcome :=
+  stepMsgV (validatesSpelling h.name) st h signer payload
 
 end Sif.Auth
